@@ -521,4 +521,37 @@ CHECKS = {
                "by vm_compute) + run-time snapshot correspondence + "
                "fresh-object differential search",
  },
+ "C20": {
+  "text": "What can be decided from the sources is proved over facts "
+          "regenerated on every run: the Cython directives of setup.py are "
+          "boundscheck=True / wraparound=False and no header, decorator or "
+          "with-block of the four .pyx files overrides them; in the model of "
+          "such a buffer every access yields a value from inside it or an "
+          "IndexError, including the loops that index before testing the "
+          "bound; at each of the 24 raw-pointer hand-overs the element widths "
+          "of buffer, cast, extern declaration and C definition agree; every "
+          "one of the 35 accesses of the index-addressed C routines "
+          "(current-flow betweenness x2, Spearman correlation) is inside the "
+          "extent the wrapper passes, for all sizes (one fixed tactic; a "
+          "false obligation does not compile). Not proved (partial): the "
+          "pointer-walking C routines (mutual information, surrogate tests), "
+          "the Cython-generated C, integer overflow of int index products, "
+          "alloca stack size, uninitialised reads. Correspondence / search: "
+          "an AddressSanitizer + UBSan build of the current tree is driven "
+          "through the public API over shape grids (empty, single sample, "
+          "N > T, mismatching shapes, NaN / constant data, out-of-range node "
+          "indices) in child processes; a report or crash is the failing "
+          "input, and a report inside a routine whose obligations are proved "
+          "breaks the correspondence.",
+  "design_ref": "DESIGN.md section 5, C20",
+  "note": "trusted: translator c_kernel_access.py (regex / brace-matching "
+          "reader of the C subset, extents justified by pattern checks of the "
+          "wrappers), LP64 widths of int / long, gcc's sanitizer runtime, "
+          "numpy's allocator (small blocks are cached, which can hide an "
+          "overflow between two live arrays); geo-model rewiring kernels are "
+          "not driven (they may not return)",
+  "technique": "Coq proofs over regenerated directive / pointer-width / "
+               "index-range facts (nia, vm_compute) + sanitizer-instrumented "
+               "build driven over shape grids",
+ },
 }
